@@ -148,3 +148,374 @@ Proof.
 Qed.
 Lemma Good_ret s : Good s (s, Continue).
 Proof. split; simpl; auto. intros _. apply Post_refl. Qed.
+
+Lemma bound_cons x v b y : bound ((x, v) :: b) y = Nat.eqb y x || bound b y.
+Proof. unfold bound. simpl. destruct (Nat.eqb y x); reflexivity. Qed.
+
+Section Demand.
+  Variable W : world.
+  Variable D : domains.
+
+  (* loop invariant of the enumeration of x started in state s, standing before index i in state s0 *)
+  Definition LI (x : var) (s : store) (i : nat) (s0 : store) : Prop :=
+    Ext s s0 /\ (i = 0 -> s0 = s) /\ (1 <= i -> Ext (touch x 0 s) s0) /\
+    (forall y, y <> x -> (opn y s -> npulls y s0 = npulls y s /\ ended y s0 = false) /\ (~ opn y s -> ~ opn y s0)) /\
+    (ended x s = false -> npulls x s0 = i /\ ended x s0 = false) /\
+    (forall z, ended z s0 = true -> ended z s = true \/ (1 <= i /\ z <> x /\ npulls z s = 0)) /\
+    (AllY s -> AllY s0) /\ i <= npulls x s0.
+
+  Lemma enum_loop x b (k : val -> store -> store * signal) s :
+    lookup b x = None -> Pre b s -> ~ opn x s ->
+    (forall v s0, Pre ((x, v) :: b) s0 -> Good s0 (k v s0)) ->
+    forall l i s0, LI x s i s0 ->
+      let o := each (fun iv s1 => k (snd iv) (touch x (fst iv) s1)) (combine (seq i (length l)) l) s0 in
+      (AllY s -> AllY (fst o)) /\ (snd o = Continue -> LI x s (i + length l) (fst o)).
+  Proof.
+    intros Hx (HOB & HJ & HA) Hnx Hk.
+    induction l as [|v l IH]; intros i s0 HLI; simpl.
+    - split; [apply HLI | intros _; now rewrite Nat.add_0_r].
+    - destruct HLI as (E0 & Z0 & E1 & Oth & Xst & Endd & All0 & Ile).
+      set (s1 := touch x i s0).
+      assert (F1 : Ext s0 s1) by apply Ext_touch.
+      assert (F1s : Ext s s1) by (eapply Ext_trans; eauto).
+      assert (F2 : i < npulls x s1) by (apply npulls_touch_gt; auto).
+      assert (F3 : forall y, y <> x -> npulls y s1 = npulls y s0) by (intros; apply npulls_touch_other; auto).
+      assert (F4 : forall z, ended z s1 = ended z s0) by (intros; apply ended_touch).
+      assert (HPre : Pre ((x, v) :: b) s1).
+      { split; [|split].
+        - intros y [Hy1 Hy2]. rewrite bound_cons. destruct (Nat.eqb_spec y x) as [|N]; simpl; auto.
+          rewrite (F3 y N) in Hy1. rewrite F4 in Hy2.
+          destruct (opn_dec y s) as [Ho|Hn]; [apply HOB; auto|].
+          exfalso. destruct (Oth y N) as [_ O2]. apply (O2 Hn). split; auto.
+        - intros z Hz. rewrite F4 in Hz. destruct (Endd z Hz) as [Hs | (Hi & Hzx & Hzn)].
+          + destruct (HJ z Hs) as [y [Hb Hn]]. exists y. split; [eapply bef_Ext; eauto|].
+            pose proof (npulls_Ext y _ _ F1s). lia.
+          + exists x. split; [|lia].
+            destruct (E1 Hi) as [l0 Hl0]. destruct F1 as [l1 Hl1].
+            exists (touch x 0 s), (l1 ++ l0). split; [|split].
+            * rewrite Hl1, Hl0. now rewrite app_assoc.
+            * rewrite npulls_touch_other; auto.
+            * pose proof (npulls_touch_gt x 0 s). lia.
+        - apply AllY_touch; auto. }
+      destruct (Hk v s1 HPre) as [G1 G2].
+      destruct (k v s1) as [s2 [|]] eqn:Hkv; simpl in *.
+      + (* the consumer continues *)
+        destruct (G2 eq_refl) as (PE & PA & PB & PC).
+        replace (i + S (length l)) with (S i + length l) by lia.
+        assert (N1 : Ext s s2) by (eapply Ext_trans; eauto).
+        assert (N2 : S i = 0 -> s2 = s) by (intros H; discriminate).
+        assert (N3 : 1 <= S i -> Ext (touch x 0 s) s2).
+        { intros _. destruct i as [|i'].
+          - unfold s1 in PE. rewrite (Z0 eq_refl) in PE. exact PE.
+          - eapply Ext_trans; [apply E1; lia|]. eapply Ext_trans; eauto. }
+        assert (N4 : forall y, y <> x -> (opn y s -> npulls y s2 = npulls y s /\ ended y s2 = false) /\ (~ opn y s -> ~ opn y s2)).
+        { intros y N. destruct (Oth y N) as [O1 O2]. split.
+          - intros Ho. destruct (O1 Ho) as [A1 A2].
+            assert (Ho1 : opn y s1) by (split; [rewrite F3, A1; auto; apply Ho | rewrite F4; auto]).
+            destruct (PA y Ho1) as [B1 B2]. split; auto. rewrite B1, F3, A1; auto.
+          - intros Hn. apply PB. intros [C1 C2]. apply (O2 Hn).
+            rewrite F3 in C1 by auto. rewrite F4 in C2. split; auto. }
+        assert (N5 : ended x s = false -> npulls x s2 = S i /\ ended x s2 = false).
+        { intros H. destruct (Xst H) as [X1 X2].
+          assert (Ho1 : opn x s1) by (split; [unfold s1; rewrite (npulls_touch_eq x i s0 X1); lia | rewrite F4; auto]).
+          destruct (PA x Ho1) as [B1 B2]. split; auto. rewrite B1. unfold s1. apply npulls_touch_eq; auto. }
+        assert (N6 : forall z, ended z s2 = true -> ended z s = true \/ (1 <= S i /\ z <> x /\ npulls z s = 0)).
+        { intros z Hz. destruct (ended z s1) eqn:Hz1.
+          - rewrite F4 in Hz1. destruct (Endd z Hz1) as [|(Q1 & Q2 & Q3)]; [left; auto | right; repeat split; auto].
+          - right. assert (Hz0 : npulls z s1 = 0).
+            { destruct (opn_dec z s1) as [Ho|Hn].
+              - destruct (PA z Ho) as [_ Hc]. rewrite Hc in Hz. discriminate.
+              - destruct (not_opn _ _ Hn) as [|Hc]; auto. rewrite Hc in Hz1. discriminate. }
+            assert (z <> x) by (intros ->; lia).
+            repeat split; auto; [lia|]. pose proof (npulls_Ext z _ _ F1s). lia. }
+        assert (N7 : AllY s -> AllY s2) by (intros H; apply PC; apply AllY_touch; auto).
+        assert (N8 : S i <= npulls x s2) by (pose proof (npulls_Ext x _ _ PE); lia).
+        apply IH. exact (conj N1 (conj N2 (conj N3 (conj N4 (conj N5 (conj N6 (conj N7 N8))))))).
+      + (* the consumer stopped *)
+        split; [intros H; apply G1; apply AllY_touch; auto | discriminate].
+  Qed.
+
+  Lemma enum_good x b (k : val -> store -> store * signal) s :
+    lookup b x = None -> Pre b s ->
+    (forall v s0, Pre ((x, v) :: b) s0 -> Good s0 (k v s0)) ->
+    Good s (enum D x k s).
+  Proof.
+    intros Hx HPre Hk. pose proof HPre as (HOB & HJ & HA).
+    assert (Hnx : ~ opn x s).
+    { intros Ho. specialize (HOB x Ho). unfold bound in HOB. rewrite Hx in HOB. discriminate. }
+    assert (HLI0 : LI x s 0 s).
+    { unfold LI. split; [apply Ext_refl|]. split; [auto|]. split; [intros H; lia|]. split; [|split; [|split; [|split]]].
+      - intros y N. split; [intros [H1 H2]; auto | auto].
+      - intros H. split; auto. destruct (not_opn _ _ Hnx) as [|Hc]; auto. rewrite Hc in H. discriminate.
+      - intros z Hz. left; auto.
+      - auto.
+      - lia. }
+    pose proof (enum_loop x b k s Hx HPre Hnx Hk (D x) 0 s HLI0) as [L1 L2].
+    unfold enum, indexed. simpl in L1, L2.
+    destruct (each _ (combine (seq 0 (length (D x))) (D x)) s) as [se [|]]; simpl in *.
+    - destruct (L2 eq_refl) as (E0 & _ & _ & Oth & _ & _ & All0 & _).
+      split; simpl.
+      + intros H. apply AllY_finish; auto.
+      + intros _. split; [eapply Ext_trans; [eauto | apply Ext_finish]|]. split; [|split].
+        * intros y Ho. assert (N : y <> x) by (intros ->; contradiction).
+          destruct (Oth y N) as [O1 _]. destruct (O1 Ho) as [A1 A2].
+          rewrite npulls_finish, ended_finish_other; auto.
+        * intros y Hn [C1 C2]. destruct (Nat.eq_dec y x) as [->|N].
+          -- rewrite ended_finish_self in C2. discriminate.
+          -- destruct (Oth y N) as [_ O2]. apply (O2 Hn). rewrite npulls_finish in C1.
+             rewrite ended_finish_other in C2; auto. split; auto.
+        * intros H. apply AllY_finish; auto.
+    - split; simpl; auto. discriminate.
+  Qed.
+
+  Lemma opnd_good e : forall b (k : binds * val -> store -> store * signal) s,
+    Pre b s -> (forall p s0, Pre (fst p) s0 -> Good s0 (k p s0)) -> Good s (tr_opnd W D e b k s).
+  Proof.
+    induction e as [v|x|e IH a]; intros b k s HPre Hk; simpl.
+    - apply Hk; auto.
+    - destruct (lookup b x) as [v|] eqn:Hx; [apply Hk; auto|].
+      apply enum_good with (b := b); auto.
+    - apply IH; auto. intros p s0 H0. eapply Good_shift; [apply Post_get|]. apply Hk. apply Pre_get; auto.
+  Qed.
+
+  Lemma cond_good c : union_free c = true -> forall b (k : res -> store -> store * signal) s,
+    Pre b s -> (forall r s0, Pre (fst r) s0 -> Good s0 (k r s0)) -> Good s (tr_cond W D c b k s).
+  Proof.
+    induction c as [op l r|l IHl r IHr|l IHl r IHr|l IHl r IHr|c IH|e c IH|y c IH]; intros Hu b k s HPre Hk;
+      simpl in Hu; try discriminate; try (apply andb_true_iff in Hu; destruct Hu as [Hul Hur]); simpl.
+    - destruct (right_first b r); apply opnd_good; auto; intros p1 s1 H1; apply opnd_good; auto.
+    - apply IHl; auto. intros p s1 H1. destruct (snd p); [apply Hk; auto | apply IHr; auto].
+    - apply IHl; auto. intros p s1 H1. destruct (snd p); [apply IHr; auto | apply Hk; auto].
+    - apply IH; auto.
+  Qed.
+
+  (* a selected expression whose variable is bound only reads attributes *)
+  Definition quiet (s s' : store) : Prop :=
+    Ext s s' /\ (forall x, npulls x s' = npulls x s) /\ (forall x, ended x s' = ended x s) /\ (AllY s -> AllY s').
+  Lemma quiet_refl s : quiet s s.
+  Proof. split; [apply Ext_refl | auto]. Qed.
+  Lemma quiet_trans a b c : quiet a b -> quiet b c -> quiet a c.
+  Proof.
+    intros (E1 & N1 & D1 & A1) (E2 & N2 & D2 & A2). split; [eapply Ext_trans; eauto|].
+    split; [intros; rewrite N2; auto|]. split; [intros; rewrite D2; auto | auto].
+  Qed.
+  Lemma quiet_get v a s : quiet s (get_ev v a s).
+  Proof. split; [apply Ext_get|]. split; [intros; apply npulls_get|]. split; [intros; apply ended_get | apply AllY_get]. Qed.
+
+  Lemma opnd_quiet e : forall b (k : binds * val -> store -> store * signal) s,
+    forallb (bound b) (opnd_vars e) = true ->
+    exists v s', quiet s s' /\ tr_opnd W D e b k s = k (b, v) s'.
+  Proof.
+    induction e as [v|x|e IH a]; intros b k s Hb; simpl.
+    - exists v, s. split; [apply quiet_refl | reflexivity].
+    - unfold opnd_vars in Hb. simpl in Hb. unfold bound in Hb. destruct (lookup b x) as [v|]; [|discriminate].
+      exists v, s. split; [apply quiet_refl | reflexivity].
+    - destruct (IH b (fun p s1 => k (fst p, getattr W (snd p) a) (get_ev (snd p) a s1)) s Hb) as (v & s' & Hq & Heq).
+      exists (getattr W v a), (get_ev v a s'). split; [eapply quiet_trans; [eauto | apply quiet_get] | exact Heq].
+  Qed.
+
+  Lemma drain_quiet e b s : forallb (bound b) (opnd_vars e) = true -> quiet s (drain W D e b s).
+  Proof.
+    intros Hb. unfold drain. destruct (opnd_quiet e b (fun _ s1 => (s1, Continue)) s Hb) as (v & s' & Hq & ->). exact Hq.
+  Qed.
+  Lemma drain_all_quiet sels b : forall s,
+    forallb (bound b) (flat_map opnd_vars sels) = true -> quiet s (drain_all W D sels b s).
+  Proof.
+    unfold drain_all. induction sels as [|e sels IH]; intros s Hb; simpl; [apply quiet_refl|].
+    simpl in Hb. rewrite forallb_app in Hb. apply andb_true_iff in Hb. destruct Hb as [H1 H2].
+    eapply quiet_trans; [apply drain_quiet; eauto | apply IH; auto].
+  Qed.
+
+  Lemma J_quiet s s' : quiet s s' -> J s -> J s'.
+  Proof. intros (E & _ & He & _). apply J_Ext_same; auto. Qed.
+  Lemma quiet_Post s s' : quiet s s' -> Post s s'.
+  Proof. intros (E & N & He & A). apply Post_same; auto. Qed.
+
+  (* the consumers *)
+  Definition hands_out (k : list val -> store -> store * signal) : Prop := forall row s, fst (k row s) = Yield row :: s.
+  Lemma take_hands_out n : hands_out (take n). Proof. intros row s. reflexivity. Qed.
+  Lemma take_all_hands_out : hands_out take_all. Proof. intros row s. reflexivity. Qed.
+
+  Lemma J_yield r s : J s -> J (Yield r :: s).
+  Proof. apply J_Ext_same; [apply Ext_cons | reflexivity]. Qed.
+  Lemma Post_yield r s : J s -> Post s (Yield r :: s).
+  Proof. intros HJ. apply Post_same; auto; [apply Ext_cons|]. intros H. apply AllY_yield; auto. Qed.
+
+  Lemma rows_good k : hands_out k -> forall rows s, J s -> Good s (each k rows s).
+  Proof.
+    intros Hk. induction rows as [|r rows IH]; intros s HJ; simpl; [apply Good_ret|].
+    pose proof (Hk r s) as H. destruct (k r s) as [s1 sg]. simpl in H. subst s1.
+    destruct sg; simpl.
+    - eapply Good_shift; [apply Post_yield; auto|]. apply IH. apply J_yield; auto.
+    - split; simpl; [intros HA; apply AllY_yield; auto | discriminate].
+  Qed.
+
+  Lemma select_good sels b k s : hands_out k ->
+    forallb (bound b) (flat_map opnd_vars sels) = true -> J s -> Good s (tr_select W D sels b k s).
+  Proof.
+    intros Hk Hb HJ. unfold tr_select. pose proof (drain_all_quiet sels b s Hb) as Hq.
+    eapply Good_shift; [apply quiet_Post; eauto|]. apply rows_good; auto. eapply J_quiet; eauto.
+  Qed.
+End Demand.
+
+(* ---------- continuations are only called on results that bind what [must] promises ---------- *)
+Lemma andthen_ext {S} (o : S * signal) f f' : (forall s, f s = f' s) -> andthen o f = andthen o f'.
+Proof. destruct o as [s [|]]; simpl; auto. Qed.
+Lemma nmem_In x l : nmem x l = true <-> In x l.
+Proof.
+  unfold nmem. rewrite existsb_exists. split.
+  - intros [y [H1 H2]]. apply Nat.eqb_eq in H2. now subst.
+  - intros H. exists x. split; auto. apply Nat.eqb_refl.
+Qed.
+Lemma In_inter x l m : In x (inter l m) -> In x l /\ In x m.
+Proof. unfold inter. rewrite filter_In. intros [H1 H2]. split; auto. now apply nmem_In. Qed.
+
+Section Cong.
+  Variable W : world.
+  Variable D : domains.
+
+  Definition covers (b0 : binds) (vs : list var) (b' : binds) : Prop :=
+    forall x, bound b0 x = true \/ In x vs -> bound b' x = true.
+
+  Lemma enum_ext x (k k' : val -> store -> store * signal) s :
+    (forall v s0, k v s0 = k' v s0) -> enum D x k s = enum D x k' s.
+  Proof. intros H. unfold enum. f_equal. apply each_ext. intros iv s0. apply H. Qed.
+
+  Lemma opnd_cong e : forall b (k k' : binds * val -> store -> store * signal) s,
+    (forall p s0, covers b (opnd_vars e) (fst p) -> k p s0 = k' p s0) ->
+    tr_opnd W D e b k s = tr_opnd W D e b k' s.
+  Proof.
+    induction e as [v|x|e IH a]; intros b k k' s H; simpl.
+    - apply H. intros x [Hx|[]]. exact Hx.
+    - destruct (lookup b x) as [v|] eqn:Hx.
+      + apply H. intros y [Hy|[<-|[]]]; auto. simpl. unfold bound. now rewrite Hx.
+      + apply enum_ext. intros v s0. apply H. intros y Hy. simpl. rewrite bound_cons.
+        destruct Hy as [Hy|[<-|[]]]; [rewrite Hy; apply orb_true_r | now rewrite Nat.eqb_refl].
+    - apply IH. intros p s0 Hp. apply H. exact Hp.
+  Qed.
+
+  Lemma cond_cong c : forall b (k k' : res -> store -> store * signal) s,
+    (forall r s0, covers b (must c (negb (snd r))) (fst r) -> k r s0 = k' r s0) ->
+    tr_cond W D c b k s = tr_cond W D c b k' s.
+  Proof.
+    induction c as [op l r|l IHl r IHr|l IHl r IHr|l IHl r IHr|c IH|e c IH|y c IH]; intros b k k' s H; simpl; auto.
+    - destruct (right_first b r).
+      + apply opnd_cong. intros p1 s1 H1. apply opnd_cong. intros p2 s2 H2. apply H.
+        unfold covers. simpl. intros x [Hx|Hx].
+        * apply H2; left; apply H1; left; exact Hx.
+        * apply in_app_or in Hx. destruct Hx as [Hx|Hx]; [apply H2; right; exact Hx | apply H2; left; apply H1; right; exact Hx].
+      + apply opnd_cong. intros p1 s1 H1. apply opnd_cong. intros p2 s2 H2. apply H.
+        unfold covers. simpl. intros x [Hx|Hx].
+        * apply H2; left; apply H1; left; exact Hx.
+        * apply in_app_or in Hx. destruct Hx as [Hx|Hx]; [apply H2; left; apply H1; right; exact Hx | apply H2; right; exact Hx].
+    - apply IHl. intros r1 s1 H1. destruct (snd r1) eqn:F1; simpl in H1.
+      + apply H. unfold covers. simpl. intros x [Hx|Hx]; [apply H1; left; exact Hx|].
+        apply In_inter in Hx. destruct Hx as [Hx _]. apply H1. right. exact Hx.
+      + apply IHr. intros r2 s2 H2. apply H. unfold covers. simpl. intros x [Hx|Hx].
+        * apply H2; left; apply H1; left; exact Hx.
+        * destruct (snd r2); simpl in *.
+          -- apply In_inter in Hx. destruct Hx as [_ Hx]. apply in_app_or in Hx.
+             destruct Hx as [Hx|Hx]; [apply H2; left; apply H1; right; exact Hx | apply H2; right; exact Hx].
+          -- apply in_app_or in Hx.
+             destruct Hx as [Hx|Hx]; [apply H2; left; apply H1; right; exact Hx | apply H2; right; exact Hx].
+    - apply IHl. intros r1 s1 H1. destruct (snd r1) eqn:F1; simpl in H1.
+      + apply IHr. intros r2 s2 H2. apply H. unfold covers. simpl. intros x [Hx|Hx].
+        * apply H2; left; apply H1; left; exact Hx.
+        * destruct (snd r2); simpl in *.
+          -- apply in_app_or in Hx.
+             destruct Hx as [Hx|Hx]; [apply H2; left; apply H1; right; exact Hx | apply H2; right; exact Hx].
+          -- apply In_inter in Hx. destruct Hx as [_ Hx]. apply in_app_or in Hx.
+             destruct Hx as [Hx|Hx]; [apply H2; left; apply H1; right; exact Hx | apply H2; right; exact Hx].
+      + apply H. unfold covers. simpl. intros x [Hx|Hx]; [apply H1; left; exact Hx|].
+        apply In_inter in Hx. destruct Hx as [Hx _]. apply H1. right. exact Hx.
+    - assert (Hb : forall r0 s0, covers b [] (fst r0) -> k r0 s0 = k' r0 s0).
+      { intros r0 s0 H0. apply H. exact H0. }
+      rewrite (IHl b _ (fun p s1 => if snd p then tr_cond W D r (fst p) k' s1 else k' (fst p, false) s1)).
+      + apply andthen_ext. intros s1. apply IHr. intros r2 s2 H2. apply Hb. intros x [Hx|[]]. apply H2. left. exact Hx.
+      + intros r1 s1 H1. destruct (snd r1).
+        * apply IHr. intros r2 s2 H2. apply Hb. intros x [Hx|[]]. apply H2. left. apply H1. left. exact Hx.
+        * apply Hb. intros x [Hx|[]]. apply H1. left. exact Hx.
+    - apply IH. intros r1 s1 H1. apply H. simpl. rewrite negb_involutive. exact H1.
+  Qed.
+End Cong.
+
+(* ---------- the theorem ---------- *)
+Lemma ended_rev x s : ended x (rev s) = ended x s.
+Proof.
+  induction s as [|e s IH]; simpl; [reflexivity|]. rewrite ended_app, IH. simpl. rewrite orb_false_r. apply orb_comm.
+Qed.
+Lemma npulls_rev x s : npulls x (rev s) = npulls x s.
+Proof.
+  induction s as [|e s IH]; simpl; [reflexivity|]. rewrite npulls_app, IH, !npulls_cons.
+  change (npulls x []) with 0. lia.
+Qed.
+Lemma upto_first_app x a r : npulls x a = 0 -> upto_first x (a ++ r) = a ++ upto_first x r.
+Proof.
+  induction a as [|e a IH]; simpl; [reflexivity|]. rewrite npulls_cons.
+  destruct (is_pull x e); [simpl; lia|]. simpl. intros H. now rewrite IH.
+Qed.
+
+Lemma J_demand_at s : J s -> demand_at (rev s).
+Proof.
+  intros H x Hx. rewrite ended_rev in Hx. destruct (H x Hx) as [y [(s1 & s2 & -> & H1 & H2) Hn]].
+  exists y. split; [|now rewrite npulls_rev].
+  unfold before. rewrite rev_app_distr, upto_first_app by (now rewrite npulls_rev).
+  apply Nat.leb_le. rewrite npulls_app, npulls_rev. lia.
+Qed.
+
+Lemma AllY_demand_ok s : AllY s -> demand_ok (rev s).
+Proof.
+  intros H p r rest Heq. rewrite <- (rev_involutive p). apply J_demand_at.
+  apply (H (rev rest) r (rev p)).
+  rewrite <- (rev_involutive s), Heq, rev_app_distr. simpl. now rewrite <- app_assoc.
+Qed.
+
+Lemma Pre_nil : Pre [] [].
+Proof.
+  split; [|split].
+  - intros x [H _]. unfold npulls in H. simpl in H. lia.
+  - intros x H. discriminate.
+  - apply AllY_nil.
+Qed.
+
+Lemma nsubset_forall l m : nsubset l m = true -> forall x, In x l -> In x m.
+Proof. unfold nsubset. rewrite forallb_forall. intros H x Hx. apply nmem_In. auto. Qed.
+
+Section Final.
+  Variable W : world.
+  Variable D : domains.
+
+  Lemma run_demand q k : f10 q = true -> hands_out k -> AllY (fst (tr_run W D q k [])).
+  Proof.
+    intros HF Hk. unfold tr_run. unfold f10 in HF. destruct (q_cond q) as [c|].
+    - apply andb_true_iff in HF. destruct HF as [Hu Hsub].
+      set (vs := flat_map opnd_vars (q_sels q)) in *.
+      set (kf := fun (p : res) (s1 : store) => if snd p then (s1, Continue) else tr_select W D (q_sels q) (fst p) k s1).
+      set (kf' := fun (p : res) (s1 : store) =>
+                    if snd p then (s1, Continue)
+                    else if forallb (bound (fst p)) vs then tr_select W D (q_sels q) (fst p) k s1
+                         else (s1, Continue)).
+      rewrite (cond_cong W D c [] kf kf' []).
+      + destruct (cond_good W D c Hu [] kf' [] Pre_nil) as [G _]; [|apply G; apply AllY_nil].
+        intros r s0 (HOB & HJ & HA). unfold kf'. destruct (snd r); [apply Good_ret|].
+        destruct (forallb (bound (fst r)) vs) eqn:Hb; [|apply Good_ret].
+        apply select_good; auto.
+      + intros r s0 Hc. unfold kf, kf'. destruct (snd r) eqn:F; auto. simpl in Hc.
+        replace (forallb (bound (fst r)) vs) with true; auto. symmetry.
+        apply forallb_forall. intros x Hx. apply Hc. right. eapply nsubset_forall; eauto.
+    - assert (Hb : forallb (bound []) (flat_map opnd_vars (q_sels q)) = true).
+      { apply forallb_forall. intros x Hx. destruct (nsubset_forall _ _ HF x Hx). }
+      destruct (select_good W D (q_sels q) [] k [] Hk Hb) as [G _]; [|apply G; apply AllY_nil].
+      intros x H. discriminate.
+  Qed.
+
+  (* C10_demand *)
+  Theorem trace_k_demand q n : f10 q = true -> demand_ok (trace_k W D q n).
+  Proof.
+    intros HF. destruct n as [|n].
+    - intros p r rest H. destruct p; discriminate.
+    - unfold trace_k. apply AllY_demand_ok. apply run_demand; auto. apply take_hands_out.
+  Qed.
+  Theorem trace_full_demand q : f10 q = true -> demand_ok (trace_full W D q).
+  Proof. intros HF. unfold trace_full. apply AllY_demand_ok. apply run_demand; auto. apply take_all_hands_out. Qed.
+End Final.
